@@ -1,6 +1,8 @@
 """C09 - a sequence is exactly the effect of its successful calls."""
 from __future__ import annotations
 
+from hypothesis import strategies as st
+
 from pv import gen, history
 from pv.engine import Clause, Ctx
 
@@ -46,8 +48,58 @@ def check(case, ctx: Ctx):
         ctx.label("parametrized")
 
 
+@st.composite
+def var_cases(draw, tier):
+    """A generated history with declared variables and calls that use a variable for the
+    first time but must be refused for another reason (unknown channel / protocol / qubit /
+    basis, index on a global channel): the refused call must not leave the sequence
+    parametrized (or otherwise changed)."""
+    prog = draw(gen.programs(dict(profile(tier), fault_pct=10, max_ops=18)))
+    ops = list(prog["ops"])
+    first_decl = next((i for i, o in enumerate(ops) if o["op"] == "declare"), None)
+    if first_decl is None:
+        return prog
+    p0 = draw(st.integers(0, len(ops)))
+    decl = [dict(op="declare_var", name="x", size=None, dtype="float"),
+            dict(op="declare_var", name="n", size=None, dtype="int")]
+    ops[p0:p0] = decl
+    lo = max(p0 + 2, first_decl + 1 + (2 if p0 <= first_decl else 0))
+    for _ in range(draw(st.integers(1, 3))):
+        f = draw(st.sampled_from(["var_channel", "var_protocol", "var_qubit", "var_basis", "var_index_global",
+                                  "var_then_foreign_name"]))
+        if f == "var_channel":
+            op = dict(op="delay", ch="ghost", d={"var": "n"}, fault=f)
+        elif f == "var_protocol":
+            op = dict(op="add", ch=0, protocol="asap", fault=f,
+                      pulse=dict(k="const_pulse", d={"var": "n"}, amp={"var": "x"}, det=0.0, phase=0.0))
+        elif f == "var_qubit":
+            op = dict(op="phase_shift", phi={"var": "x"}, qubits=["nope"], fault=f)
+        elif f == "var_basis":
+            op = dict(op="phase_shift", phi={"var": "x"}, qubits=[0], basis="nope", fault=f)
+        elif f == "var_index_global":
+            op = dict(op="target_index", ch=0, index={"var": "n"}, fault=f)
+        else:
+            op = dict(op="delay", ch={"var": "x"}, d={"var": "n"}, fault=f)
+        pos = draw(st.integers(min(lo, len(ops)), len(ops)))
+        ops.insert(pos, op)
+    return dict(prog, ops=ops)
+
+
+def check_vars(case, ctx: Ctx):
+    w = history.Walker(case, ctx, {"C09"}).run()
+    st_ = w.stats
+    nvar = sum(1 for o in case["ops"] if str(o.get("fault", "")).startswith("var_"))
+    ctx.nontrivial(nvar >= 1 and st_["raised"] >= 1)
+    ctx.label("parametrized_at_end" if w.seq.is_parametrized() else "concrete_at_end")
+    if not w.seq.is_parametrized():
+        w.check_c09_final()
+
+
 CLAUSES = [
     Clause("effects", check, gen=lambda t: gen.programs(profile(t)),
            budget={"quick": (16, 80), "thorough": (16, 3000)},
            doc="C09.atomic (raising calls), C09.readonly, C09.rebuild"),
+    Clause("variables", check_vars, gen=lambda t: var_cases(t),
+           budget={"quick": (8, 60), "thorough": (16, 2000)},
+           doc="refused calls that use a declared variable for the first time"),
 ]
